@@ -473,6 +473,19 @@ def pipeline_jobs(ctx):
     return jobs
 
 
+# Recorded findings `dtperiod:hour-pair:reversed` and `dtperiod:both-dates:same-day:reversed` (audit item 5: the class
+# alone used to exempt ANY inconsistent triple of the class).  What is recorded is one defect: both stated clock times are put
+# on the same stated day in the stated order, so the end lies before the start and the duration is written negative
+# (`(2019-06-13T09,2019-06-13T02,PT-7H)`).  Only a bad value of exactly that shape carries the recorded signature.
+NARROW_REVERSED = ('hour-pair:reversed', 'both-dates:same-day:reversed')
+
+
+def reversed_same_day(v):
+    st, en, tx = v.get('start') or '', v.get('end') or '', v.get('timex') or ''
+    return (len(st) == 19 and len(en) == 19 and st[:10] == en[:10] and en < st and tx.startswith('(')
+            and tx.split(',')[-1].startswith('PT-'))
+
+
 def pipeline(ctx):
     jobs = pipeline_jobs(ctx)
     jobs = [j if len(j) == 4 else j + (None,) for j in jobs]
@@ -505,7 +518,10 @@ def pipeline(ctx):
     for (cls, q, R), e, (tn, vs) in zip(meta, ents, dtcorpus.evaluate_wf(ents)):
         bad = [v for v, (s, d, t) in zip(e['values'], vs) if not t]
         if bad:
-            ctx.report('property', 'dtperiod:%s' % cls, 'en-us %r (reference %s): the triple is not consistent: %r' % (q, R, bad[:2]),
+            sig = 'dtperiod:%s' % cls
+            if cls in NARROW_REVERSED and not all(reversed_same_day(v) for v in bad):
+                sig += ':other-shape'      # not the recorded defect (recorded nowhere: a new violation)
+            ctx.report('property', sig, 'en-us %r (reference %s): the triple is not consistent: %r' % (q, R, bad[:2]),
                        failing_input={'culture': 'en-us', 'query': q, 'reference': str(R), 'values': bad[:2]},
                        property_fails=True)
         else:
